@@ -5,6 +5,7 @@
 //! system, libc fd-level models) lives here. Every function in this crate that is used as a
 //! `#[kani::stub]` replacement is part of the claim of the harness that uses it (DESIGN.md 3.3).
 #![feature(c_variadic)]
+#![feature(allocator_api)]
 #![allow(non_camel_case_types, unused, static_mut_refs, clippy::all)]
 
 pub mod fsmodel;
@@ -112,4 +113,159 @@ pub fn clock_reads() -> usize {
 /// Lexicographic comparison of the civil fields (valid for equal offsets).
 pub fn instant_le(a: &Instant, b: &Instant) -> bool {
     (a.y, a.mo, a.d, a.h, a.mi, a.s) <= (b.y, b.mo, b.d, b.h, b.mi, b.s)
+}
+
+// ---------------------------------------------------------------------------------------------
+// `RandomState::new()` reaches getrandom(2) through a weak symbol / raw syscall, which leaves the
+// SipHash keys symbolic and the retry loop unbounded. The hash keys are irrelevant to every
+// property (any keys give a correct map), so the stub fixes them to (0, 0).
+pub fn stub_random_state() -> std::hash::RandomState {
+    unsafe { std::mem::transmute::<[u64; 2], std::hash::RandomState>([0u64, 0u64]) }
+}
+
+// ---------------------------------------------------------------------------------------------
+// libc-level models (need `-Z c-ffi`; only linked when the harness calls `link_all()`).
+pub mod libc_model {
+    use std::os::raw::{c_char, c_int, c_long, c_uint, c_void};
+
+    pub static mut ERRNO: c_int = 0;
+    #[no_mangle]
+    pub unsafe extern "C" fn __errno_location() -> *mut c_int {
+        &raw mut ERRNO
+    }
+    // raw syscalls (futex, statx, getrandom, ...) are "not available"
+    #[no_mangle]
+    pub unsafe extern "C" fn syscall(_num: c_long, _args: ...) -> c_long {
+        ERRNO = 38; // ENOSYS
+        -1
+    }
+    // CBMC's built-in pthread_key_create expects a plain pointer as destructor, Rust passes an
+    // Option<fn>: own definitions with the Rust-side types. Single thread: a key is a slot.
+    static mut TLS: [*mut c_void; 8] = [std::ptr::null_mut(); 8];
+    static mut TLS_NEXT: c_uint = 1;
+    #[no_mangle]
+    pub unsafe extern "C" fn pthread_key_create(
+        key: *mut c_uint,
+        _dtor: Option<unsafe extern "C" fn(*mut c_void)>,
+    ) -> c_int {
+        *key = TLS_NEXT;
+        TLS_NEXT += 1;
+        0
+    }
+    #[no_mangle]
+    pub unsafe extern "C" fn pthread_key_delete(_key: c_uint) -> c_int {
+        0
+    }
+    #[no_mangle]
+    pub unsafe extern "C" fn pthread_setspecific(key: c_uint, v: *const c_void) -> c_int {
+        TLS[(key % 8) as usize] = v as *mut c_void;
+        0
+    }
+    #[no_mangle]
+    pub unsafe extern "C" fn pthread_getspecific(key: c_uint) -> *mut c_void {
+        TLS[(key % 8) as usize]
+    }
+
+    pub fn link() {
+        let f1: unsafe extern "C" fn() -> *mut c_int = __errno_location;
+        let f2: unsafe extern "C" fn(c_long, ...) -> c_long = syscall;
+        let f3: unsafe extern "C" fn(*mut c_uint, Option<unsafe extern "C" fn(*mut c_void)>) -> c_int = pthread_key_create;
+        let f4: unsafe extern "C" fn(c_uint, *const c_void) -> c_int = pthread_setspecific;
+        let f5: unsafe extern "C" fn(c_uint) -> *mut c_void = pthread_getspecific;
+        let f6: unsafe extern "C" fn(c_uint) -> c_int = pthread_key_delete;
+        std::hint::black_box((f1, f2, f3, f4, f5, f6));
+    }
+}
+pub fn link_all() {
+    libc_model::link();
+}
+
+// ---------------------------------------------------------------------------------------------
+// std::collections::HashMap (hashbrown: SSE2 group probing over heap control bytes) is out of
+// reach of CBMC's symbolic execution even for one concrete insert (probed: no result in 10 min),
+// and Kani 0.68 rejects generic stubs for `HashMap::get`. In the *build copy* of the sources the
+// `use ...collections::HashMap` imports are therefore redirected to this association-list model
+// with the same observable contract (unique keys, insert replaces, get/remove by Borrow-equality,
+// unspecified iteration order - here: insertion order). Part of the environment model.
+pub mod hm {
+    use std::borrow::Borrow;
+    #[derive(Clone, Debug)]
+    pub struct HashMap<K, V> {
+        items: Vec<(K, V)>,
+    }
+    impl<K, V> Default for HashMap<K, V> {
+        fn default() -> Self {
+            HashMap { items: Vec::new() }
+        }
+    }
+    impl<K: Eq, V> HashMap<K, V> {
+        pub fn new() -> Self {
+            HashMap { items: Vec::new() }
+        }
+        pub fn insert(&mut self, k: K, v: V) -> Option<V> {
+            let mut i = 0;
+            while i < self.items.len() {
+                if self.items[i].0 == k {
+                    return Some(std::mem::replace(&mut self.items[i].1, v));
+                }
+                i += 1;
+            }
+            self.items.push((k, v));
+            None
+        }
+        pub fn get<Q: ?Sized + Eq>(&self, k: &Q) -> Option<&V>
+        where
+            K: Borrow<Q>,
+        {
+            let mut i = 0;
+            while i < self.items.len() {
+                if self.items[i].0.borrow() == k {
+                    return Some(&self.items[i].1);
+                }
+                i += 1;
+            }
+            None
+        }
+        pub fn remove<Q: ?Sized + Eq>(&mut self, k: &Q) -> Option<V>
+        where
+            K: Borrow<Q>,
+        {
+            let mut i = 0;
+            while i < self.items.len() {
+                if self.items[i].0.borrow() == k {
+                    return Some(self.items.remove(i).1);
+                }
+                i += 1;
+            }
+            None
+        }
+        pub fn contains_key<Q: ?Sized + Eq>(&self, k: &Q) -> bool
+        where
+            K: Borrow<Q>,
+        {
+            self.get(k).is_some()
+        }
+        pub fn is_empty(&self) -> bool {
+            self.items.is_empty()
+        }
+        pub fn len(&self) -> usize {
+            self.items.len()
+        }
+        pub fn values(&self) -> impl Iterator<Item = &V> {
+            self.items.iter().map(|kv| &kv.1)
+        }
+        pub fn keys(&self) -> impl Iterator<Item = &K> {
+            self.items.iter().map(|kv| &kv.0)
+        }
+        pub fn iter(&self) -> impl Iterator<Item = (&K, &V)> {
+            self.items.iter().map(|kv| (&kv.0, &kv.1))
+        }
+    }
+    impl<K, V> IntoIterator for HashMap<K, V> {
+        type Item = (K, V);
+        type IntoIter = std::vec::IntoIter<(K, V)>;
+        fn into_iter(self) -> Self::IntoIter {
+            self.items.into_iter()
+        }
+    }
 }
